@@ -98,8 +98,19 @@ static int write_empty(const char* out, unsigned n) {
     return 0;
 }
 
+// /PhaseSpace/data of another rank than a results file has: 0 (a scalar), 1, 2 or 5
+static int write_rank(const char* out, unsigned n, int rank) {
+    H5::H5File file(out, H5F_ACC_TRUNC); file.createGroup("/PhaseSpace");
+    std::vector<float> v((size_t)n * n, 0.01f);
+    if (rank == 0) { H5::DataSpace sp(H5S_SCALAR); file.createDataSet("/PhaseSpace/data", H5::PredType::IEEE_F32LE, sp).write(v.data(), H5::PredType::NATIVE_FLOAT); return 0; }
+    hsize_t dims[5] = {1, 1, 1, 1, 1}; if (rank == 1) dims[0] = (hsize_t)n * n; else { dims[rank - 2] = n; dims[rank - 1] = n; }
+    H5::DataSpace sp(rank, dims); file.createDataSet("/PhaseSpace/data", H5::PredType::IEEE_F32LE, sp).write(v.data(), H5::PredType::NATIVE_FLOAT);
+    return 0;
+}
+
 int main(int c, char** v) {
     if (c >= 5 && std::string(v[1]) == "--write") return write_start(v[2], (unsigned)atoi(v[3]), v[4]);
+    if (c >= 5 && std::string(v[1]) == "--write-rank") return write_rank(v[2], (unsigned)atoi(v[3]), atoi(v[4]));
     if (c >= 4 && std::string(v[1]) == "--write-empty") return write_empty(v[2], (unsigned)atoi(v[3]));
     if (c < 2) { fprintf(stderr, "usage: h5json file.h5 [--max N]\n"); return 2; }
     for (int i = 2; i + 1 < c; i++) if (std::string(v[i]) == "--max") MAXV = strtoull(v[i + 1], 0, 10);
